@@ -185,9 +185,21 @@ def r1_chip_info(program, folder, rep):
                                ()),
                   ((("item", DATA, ("slice", ("const", None), ("const", 18),
                                     ("const", None))), ()),))
-        cs = plain(kw.get("core_states", ("?",)))
+        cs_raw = kw.get("core_states", ("?",))
+        cs = plain(cs_raw)
         okc = cs == ("item", plain(states), ("slice", ("const", None),
                                               plain(NUM), ("const", None)))
+        if not okc and cs_raw[0] == "item" and cs[2] == (
+                "slice", ("const", None), plain(NUM), ("const", None)):
+            # the list of states filled by a loop: the same elements
+            built_ = T.filtered(cs_raw[1])
+            FIRST18 = ("item", plain(DATA), ("slice", ("const", None),
+                                              ("const", 18), ("const", None)))
+            okc = bool(built_) and len(built_) == 1 and \
+                plain(built_[0][0]) == FIRST18 and not built_[0][2] and \
+                plain(built_[0][1]) == ("call", ("attr", ("global", "consts"),
+                                                 "AppState"),
+                                        (("elem", FIRST18),), ())
         le_ = kw.get("local_ethernet_chip", ("?",))
         if le_[0] == "tuple" and len(le_) == 3:
             src = unparse(reify(plain(("comp", DATA, 18))))
@@ -500,9 +512,18 @@ def _p2p_stream(program, folder, rep, fn):
     hexp = unparse(w.test.comparators[0] if lt else w.test.left)
     okm = row is not None
     f = fors[0]
-    okm = okm and unparse(f.iter) in (
-        "range(min(8, %s - %s))" % (hexp, row),
-        "range(min(%s - %s, 8))" % (hexp, row))
+    # the entries of one word: range(min(8, height - row)), on value terms
+    # (range(0, n), the operand order of min and temporaries do not matter)
+    TP = Terms(fn)
+    it_t = plain(TP.term(f.iter, TP.cfg.loop_head[id(f)]))
+    hr_ = plain(TP.term(_wp(ast.parse("%s - %s" % (hexp, row),
+                                      mode="eval").body),
+                        TP.cfg.loop_head[id(f)]))
+    okm = okm and it_t[0] == "call" and it_t[1] == ("global", "range") and \
+        len(it_t[2]) == 1 and it_t[2][0][0] == "call" and \
+        it_t[2][0][1] == ("global", "min") and \
+        sorted(it_t[2][0][2], key=repr) == sorted(
+            [("const", 8), hr_], key=repr)
     ev = chain(f.target)
     st = [s_ for s_ in ast.walk(f) if isinstance(s_, ast.Assign)
           and isinstance(s_.targets[0], ast.Subscript)]
